@@ -1,6 +1,7 @@
 import AslProofs.Matrix
 import AslProofs.Solve
 import AslProofs.Euler
+import AslProofs.AxisAngle
 import Mathlib.Analysis.SpecialFunctions.Trigonometric.Inverse
 import Mathlib.Analysis.SpecialFunctions.Complex.Arg
 import Mathlib.LinearAlgebra.Matrix.Nondegenerate
@@ -22,7 +23,7 @@ Property theorems only (helper lemmas: `AslProofs/Matrix.lean`, `AslProofs/Solve
   interface the models are written against); nothing here is about IEEE floating point.
 -/
 namespace C20
-open AslModel AslModel.Solve AslProofs.Matrix AslProofs.Solve AslProofs.Euler
+open AslModel AslModel.Solve AslProofs.Matrix AslProofs.Solve AslProofs.Euler AslProofs.AxisAngle
 
 variable {K : Type} [Field K]
 
@@ -469,6 +470,118 @@ example : TrigOK (⟨Real.cos, Real.sin, Real.arcsin, Real.arccos, fun y x => Co
   cos_half_pi := Real.cos_pi_div_two
   sin_pi := Real.sin_pi
   cos_pi := Real.cos_pi
+
+/-! ## axis-angle: `fromAxisAngle(U)`, `angle()`, `axisAngle()`, `Matrix4::rotate(axis, angle)`, `rotate(Vec3)` -/
+
+/-- `fromAxisAngleU(u, θ)` of a unit axis is a unit quaternion -/
+theorem fromAxisAngleU_is_unit (T : Trig K) (hu : ∀ x, T.cos x * T.cos x + T.sin x * T.sin x = 1) (u : V3 K)
+    (h1 : UnitVec u) (θ : K) : UnitQuat (Gen.AA.fromAxisAngleU (fld K) T u θ) :=
+  fromAxisAngleU_unit T hu u h1 θ
+
+/-- the matrix of `fromAxisAngleU(u, θ)` is Rodrigues' rotation matrix `I + sin θ [u]× + (1 − cos θ)[u]×²`
+(upper-left 3×3 block; the last row and column are `0 0 0 1`) -/
+theorem fromAxisAngleU_matrix_rodrigues (T : Trig K) (hT : TrigDouble T) (u : V3 K) (θ : K) :
+    toM3 (Gen.Q.matrix (fld K) (Gen.AA.fromAxisAngleU (fld K) T u θ)) = rodrigues u (T.cos θ) (T.sin θ) ∧
+    ((∀ i, i < 3 → Gen.Q.matrix (fld K) (Gen.AA.fromAxisAngleU (fld K) T u θ) i 3 = 0 ∧
+        Gen.Q.matrix (fld K) (Gen.AA.fromAxisAngleU (fld K) T u θ) 3 i = 0) ∧
+      Gen.Q.matrix (fld K) (Gen.AA.fromAxisAngleU (fld K) T u θ) 3 3 = 1) :=
+  ⟨fromAxisAngleU_rodrigues T hT u θ, qmat_affine _⟩
+
+/-- `Matrix4::rotate(axis, angle)` for any axis of non-zero length `m = axis.length()` is Rodrigues' matrix about `axis/m` -/
+theorem rotate_axis_angle_rodrigues (C : Cmp K) (T : Trig K) (hT : TrigDouble T) (heqz : ∀ x, C.eqz x = true ↔ x = 0)
+    (axis : V3 K) (θ : K) (hm : Gen.AA.length (fld K) C axis ≠ 0) :
+    toM3 (Gen.AA.rotateAA (fld K) C T axis θ) =
+      rodrigues (Gen.V3.smul (fld K) axis (1 / Gen.AA.length (fld K) C axis)) (T.cos θ) (T.sin θ) := by
+  unfold Gen.AA.rotateAA
+  rw [fromAxisAngle_eq_U C T axis θ heqz hm]
+  exact fromAxisAngleU_rodrigues T hT _ θ
+
+section axisangle
+variable {R : Type} [Field R] [LinearOrder R] [IsStrictOrderedRing R]
+
+/-- for a unit axis (ordered field, `sqrt` a non-negative square root) `Matrix4::rotate(u, θ)` is Rodrigues' matrix about `u` -/
+theorem rotate_unit_axis_rodrigues {C : Cmp R} (hC : CmpStd C) (T : Trig R) (hT : TrigDouble T) (u : V3 R) (h1 : UnitVec u) (θ : R) :
+    toM3 (Gen.AA.rotateAA (fld R) C T u θ) = rodrigues u (T.cos θ) (T.sin θ) := by
+  have hlen : Gen.AA.length (fld R) C u = 1 := by
+    unfold UnitVec at h1
+    simp only [Gen.AA.length, fld_add, fld_mul, h1]
+    have := sqrt_sq hC (1 : R)
+    simpa using this
+  rw [rotate_axis_angle_rodrigues C T hT hC.eqz u θ (by rw [hlen]; exact one_ne_zero), hlen]
+  congr 1
+  simp [Gen.V3.smul]
+
+/-- **axis-angle round trip**: for every unit quaternion `q`, `fromAxisAngle(q.axisAngle())` is `q` or `-q` (the angle-0
+branch `‖v‖ = 0` included), hence has the same rotation matrix -/
+theorem axisAngle_roundtrip {C : Cmp R} (hC : CmpStd C) {T : Trig R} (hT : TrigAA T) (q : Quat R) (hq : UnitQuat q) :
+    (Gen.AA.fromRotVec (fld R) C T (Gen.AA.axisAngle (fld R) C T q) = q ∨
+      Gen.AA.fromRotVec (fld R) C T (Gen.AA.axisAngle (fld R) C T q) = Gen.Q.neg (fld R) q) ∧
+    Gen.Q.matrix (fld R) (Gen.AA.fromRotVec (fld R) C T (Gen.AA.axisAngle (fld R) C T q)) = Gen.Q.matrix (fld R) q := by
+  have h := axisAngle_roundtrip_quat hC hT q hq
+  refine ⟨h, ?_⟩
+  rcases h with e | e <;> rw [e]
+  exact quat_neg_same_matrix q
+
+/-- matrix level: `Matrix4::rotate(M.axisAngle())` gives back `M` for the matrix `M` of any unit quaternion -/
+theorem rotate_axisAngle_roundtrip {C : Cmp R} (hC : CmpStd C) {T : Trig R} (hT : TrigAA T) (q : Quat R) (hq : UnitQuat q) :
+    Gen.AA.rotateVec (fld R) C T (Gen.AA.matAxisAngle (fld R) C T (Gen.Q.matrix (fld R) q)) = Gen.Q.matrix (fld R) q := by
+  have hr := rotation_correct_ordered C hC.lt (fun z hz => (hC.sqrt z hz).2) q hq
+  have hneg : UnitQuat (Gen.Q.neg (fld R) q) := by
+    unfold UnitQuat at hq ⊢
+    simp [Gen.Q.neg]; linear_combination hq
+  show Gen.Q.matrix (fld R) (Gen.AA.fromRotVec (fld R) C T (Gen.AA.axisAngle (fld R) C T (Gen.M4.rotation (fld R) C (Gen.Q.matrix (fld R) q)))) = _
+  rcases hr with e | e <;> rw [e]
+  · exact (axisAngle_roundtrip hC hT q hq).2
+  · rw [(axisAngle_roundtrip hC hT _ hneg).2]; exact quat_neg_same_matrix q
+
+/-- `matrix(rotation(M)) = M` for every matrix `M` in the image of `Quaternion::matrix` on unit quaternions -/
+theorem rotation_matrix_partial (C : Cmp R) (hlt : ∀ a b, C.lt a b = decide (a < b)) (hsqrt : ∀ z, 0 ≤ z → C.sqrt z * C.sqrt z = z)
+    (q : Quat R) (hq : UnitQuat q) :
+    Gen.Q.matrix (fld R) (Gen.M4.rotation (fld R) C (Gen.Q.matrix (fld R) q)) = Gen.Q.matrix (fld R) q := by
+  rcases rotation_correct_ordered C hlt hsqrt q hq with e | e <;> rw [e]
+  exact quat_neg_same_matrix q
+
+/-- the full statement (every proper rotation matrix, not only those known to be `matrix q`); it follows from
+`rotation_matrix_partial` and the surjectivity of `q ↦ matrix q` onto SO(3), which is not proved here -/
+def rotation_matrix_full (C : Cmp R) : Prop :=
+  ∀ a : Nat → Nat → R, toM3 a * (toM3 a).transpose = 1 → (toM3 a).det = 1 →
+    toM3 (Gen.Q.matrix (fld R) (Gen.M4.rotation (fld R) C a)) = toM3 a
+
+end axisangle
+
+/-- the real functions satisfy `TrigDouble` and `TrigAA`, and `Real.sqrt`, `<`, `= 0` satisfy `CmpStd` -/
+example : TrigDouble (⟨Real.cos, Real.sin, Real.arcsin, Real.arccos, fun y x => Complex.arg ⟨x, y⟩, Real.pi⟩ : Trig ℝ) where
+  unit x := by have := Real.cos_sq_add_sin_sq x; nlinarith
+  cos_double x := by
+    show Real.cos x = Real.cos (1 / 2 * x) * Real.cos (1 / 2 * x) - Real.sin (1 / 2 * x) * Real.sin (1 / 2 * x)
+    have h := Real.cos_two_mul (1 / 2 * x)
+    have h2 := Real.cos_sq_add_sin_sq (1 / 2 * x)
+    have e : 2 * (1 / 2 * x) = x := by ring
+    rw [e] at h
+    nlinarith
+  sin_double x := by
+    show Real.sin x = 2 * Real.sin (1 / 2 * x) * Real.cos (1 / 2 * x)
+    have h := Real.sin_two_mul (1 / 2 * x)
+    have e : 2 * (1 / 2 * x) = x := by ring
+    rw [e] at h
+    exact h
+
+example : TrigAA (⟨Real.cos, Real.sin, Real.arcsin, Real.arccos, fun y x => Complex.arg ⟨x, y⟩, Real.pi⟩ : Trig ℝ) where
+  unit x := by have := Real.cos_sq_add_sin_sq x; nlinarith
+  acos_spec y h1 h2 := ⟨Real.cos_arccos h1 h2, by
+    show 0 ≤ Real.sin (Real.arccos y)
+    rw [Real.sin_arccos]; exact Real.sqrt_nonneg _⟩
+  cos_zero := Real.cos_zero
+  sin_neg := Real.sin_neg
+  cos_neg := Real.cos_neg
+  cos_pi := Real.cos_pi
+  sin_sub_pi := Real.sin_sub_pi
+  cos_sub_pi := Real.cos_sub_pi
+
+noncomputable example : CmpStd (⟨fun x => |x|, fun a b => decide (a < b), Real.sqrt, fun x => decide (x = 0)⟩ : Cmp ℝ) where
+  lt _ _ := rfl
+  eqz x := by simp
+  sqrt z hz := ⟨Real.sqrt_nonneg z, Real.mul_self_sqrt hz⟩
 
 /-! ## the hypotheses are satisfiable -/
 
